@@ -7,6 +7,8 @@ from . import ref, spec as S
 
 
 def _spec(case):
+    if case.get("cspec"):
+        return case["cspec"]["base"]
     return case.get("spec") or case.get("spec_a")
 
 
